@@ -17,7 +17,8 @@ D = os.path.join(SPECS, "tetris")
 def run(chk):
     W, tlc = chk.workdir, chk.tlc
     cfg = os.path.join(W, "tproto.cfg")
-    open(cfg, "w").write("SPECIFICATION Spec\nINVARIANTS OrderIsValid OutlinesValid Emit\nCHECK_DEADLOCK FALSE\n")
+    nrand = 1500 if chk.tier == "thorough" else 40
+    open(cfg, "w").write(f"SPECIFICATION Spec\nCONSTANT NRand = {nrand}\nINVARIANTS OrderIsValid OutlinesValid Emit\nCHECK_DEADLOCK FALSE\n")
     r = tlc.check(os.path.join(D, "MC_TetrisProto.tla"), cfg, timeout=3600)
     chk.add_tlc("MC_TetrisProto libraries + message breakages", r)
     chk.tlc_must_pass("MC_TetrisProto", r)
